@@ -50,3 +50,5 @@ def check(ctx, rep, entry_filter=None, prop_rules=None):
     else:
         rep.ob('EFF-positive-control', 'ProFormaAnnotation.pop_labile_mods writes self', '', True,
                'the editor used as control is detected as mutating its receiver', False, 'C08')
+    from .common import repeat_alias_rule
+    repeat_alias_rule(ctx, rep, 'C08b', set(program.modules))
